@@ -3,10 +3,18 @@
     no-op), and C03_unchanged (no change set for a path => its content is unchanged).
 
     All statements are closed: the oracles and their contracts are explicit premises.  Those that depend on how the
-    pipelines are written are indexed by the guard tables: they need `if not <changes>: return None` in every pipeline
-    ([nochange_guarded]), otherwise a NoChange outcome could re-emit `code` of the unchanged tree. *)
+    pipelines are written are indexed by the guard table OF THE PIPELINE THE PROPERTY CONCERNS (libcst: C01, C02, C07 speak
+    about python sources): they need `if not <changes>: return None` there ([libcst_nochange_guarded]), otherwise a
+    NoChange outcome could re-emit `code` of the unchanged tree.  The contracts are demanded only of the codemods OF THE
+    RUN ([P]) and only on contents satisfying an invariant [Good] that the transformers preserve (e.g. the complement of
+    the finding classes), so that the conclusions apply to the unchanged tree.
+    C07: [two_runs_noop] talks about a FIRST run and derives quietness of its output from explicit contracts (round trip
+    parse (code t) = Some t; local idempotence of transformer+detector; no dependency without a rewrite); the older
+    [quiet_run] (quiet content => no-op) is kept as the lemma it uses. *)
 From CM Require Import Base.Dict Model.Run Spec.RunSpec Proofs.DictFacts Proofs.RunFacts Proofs.RunSteps Proofs.C10Facts
-  Generated.Tables.
+  Proofs.C09Facts Generated.Tables.
+
+Definition libcst_nochange_guarded (tb : run_tables) : bool := has_guard IfNoChanges (t_libcst tb).
 
 Definition nochange_guarded (tb : run_tables) : bool :=
   forallb (fun k => has_guard IfNoChanges (guards_of tb k)) all_pipes.
@@ -59,9 +67,11 @@ Section Lift.
   Variable Rel : bytes -> bytes -> Prop.      (* Rel new old *)
   Hypothesis Rel_refl : forall b, Rel b b.
   Hypothesis Rel_trans : forall a b c, Rel c b -> Rel b a -> Rel c a.
-  Hypothesis Hguard : nochange_guarded tb = true.
+  (** the codemods the contracts are about (those of the run) *)
+  Variable P : codemod -> Prop.
+  Hypothesis Hguard : forall K, P K -> has_guard IfNoChanges (guards_of tb (cpipe K)) = true.
   (** the local contract: what a transformer returns for a file relates to that file's text *)
-  Hypothesis HT : forall K b t fi t' chs ds,
+  Hypothesis HT : forall K b t fi t' chs ds, P K ->
     parse (cpipe K) b = Some t -> T K t fi = Changed t' chs ds -> Rel (code (cpipe K) t') b.
 
   Definition fs_rel (excl : list path) (fs fs' : fsys) : Prop :=
@@ -76,29 +86,29 @@ Section Lift.
   Lemma fs_rel_trans excl a b c : fs_rel excl a b -> fs_rel excl b c -> fs_rel excl a c.
   Proof. intros H1 H2 q Hq. eapply opt_rel_trans; [apply H1|apply H2]; exact Hq. Qed.
 
-  Lemma pfile_rel cfg K res fs p excl : fs_rel excl fs (snd (pfile cfg K res fs p)).
+  Lemma pfile_rel cfg K res fs p excl : P K -> fs_rel excl fs (snd (pfile cfg K res fs p)).
   Proof.
-    intros q _. rewrite pfile_snd. destruct (snd (fstep cfg K res p (lookup fs p))) as [b'|] eqn:Ew; [|apply opt_rel_refl].
+    intros HP q _. rewrite pfile_snd. destruct (snd (fstep cfg K res p (lookup fs p))) as [b'|] eqn:Ew; [|apply opt_rel_refl].
     destruct (str_eqb_spec q p) as [->|Hne]; [|rewrite lookup_fwrite_other by exact Hne; apply opt_rel_refl].
     rewrite lookup_fwrite_same. apply fstep_write in Ew. destruct Ew as [_ [b [t [Hc [Hp Hcase]]]]].
     rewrite Hc. simpl. destruct Hcase as [[_ [_ Hg]]|[t' [chs [ds [HTe ->]]]]].
-    - rewrite (nochange_guarded_k tb (cpipe K) Hguard) in Hg. discriminate.
+    - rewrite (Hguard K HP) in Hg. discriminate.
     - eapply HT; eauto.
   Qed.
 
-  Lemma mfiles_rel cfg K res excl : forall files fs, fs_rel excl fs (snd (mfiles cfg K res fs files)).
+  Lemma mfiles_rel cfg K res excl : P K -> forall files fs, fs_rel excl fs (snd (mfiles cfg K res fs files)).
   Proof.
-    induction files as [|p rest IH]; intros fs; [apply fs_rel_refl|].
-    rewrite mfiles_cons. cbn [snd]. eapply fs_rel_trans; [apply pfile_rel|apply IH].
+    intros HP. induction files as [|p rest IH]; intros fs; [apply fs_rel_refl|].
+    rewrite mfiles_cons. cbn [snd]. eapply fs_rel_trans; [apply pfile_rel; exact HP|apply IH].
   Qed.
 
-  Lemma acodemod_rel cfg pre K s s' excl :
+  Lemma acodemod_rel cfg pre K s s' excl : P K ->
     acodemod cfg pre K s = Ok s' \/ acodemod cfg pre K s = Aborted s' -> fs_rel excl (s_fs s) (s_fs s').
   Proof.
-    intros H. destruct (acodemod_cases tb tree parse code T S R diff fsel cfg pre K s) as [E|[res [files [_ [_ [_ E]]]]]];
+    intros HP H. destruct (acodemod_cases tb tree parse code T S R diff fsel cfg pre K s) as [E|[res [files [_ [_ [_ E]]]]]];
       rewrite E in H.
     - destruct H as [H|H]; inversion H; subst; apply fs_rel_refl.
-    - apply presults_fs in H. destruct H as [H _]. rewrite H. simpl. apply mfiles_rel.
+    - apply presults_fs in H. destruct H as [H _]. rewrite H. simpl. now apply mfiles_rel.
   Qed.
 
   Lemma pdeps_rel cfg id s excl :
@@ -114,27 +124,31 @@ Section Lift.
   Qed.
 
   Lemma acodemods_rel cfg pre excl Ks : forall s r,
+    (forall K, In K Ks -> P K) ->
     (forall q, In q (map st_path (s_stores s)) -> In q excl) ->
     acodemods cfg pre Ks s = r -> fs_rel excl (s_fs s) (final_fs r).
   Proof.
-    induction Ks as [|K rest IH]; intros s r Hex Hr; simpl in Hr.
+    induction Ks as [|K rest IH]; intros s r HPs Hex Hr; simpl in Hr.
     - subst. apply fs_rel_refl.
-    - destruct (acodemod cfg pre K s) as [s1|s1] eqn:E.
+    - assert (HPK : P K) by (apply HPs; now left).
+      assert (HPr : forall K', In K' rest -> P K') by (intros K' Hin; apply HPs; now right).
+      destruct (acodemod cfg pre K s) as [s1|s1] eqn:E.
       + pose proof (acodemod_frame tb tree parse code T S R diff fsel _ _ _ _ _ (or_introl E)) as [St1 _].
         destruct (pdeps_rel cfg (cid K) s1 excl) as [H2 H3]; [now rewrite St1|].
-        eapply fs_rel_trans; [eapply acodemod_rel; left; exact E|].
-        eapply fs_rel_trans; [exact H2|]. apply (IH _ _ ) in Hr; [exact Hr|]. now rewrite H3, St1.
-      + subst. simpl. eapply acodemod_rel. right. exact E.
+        eapply fs_rel_trans; [eapply acodemod_rel; [exact HPK|left; exact E]|].
+        eapply fs_rel_trans; [exact H2|]. apply (IH _ _ HPr) in Hr; [exact Hr|]. now rewrite H3, St1.
+      + subst. simpl. eapply acodemod_rel; [exact HPK|]. right. exact E.
   Qed.
 
   (** every path that is not a manifest: the final content is related to the initial one (and no file appears or
       disappears), whether the run completes or aborts *)
   Lemma lift_rel cfg Ks fs stores p :
+    (forall K, In K Ks -> P K) ->
     ~ In p (map st_path stores) ->
     opt_rel Rel (lookup fs p) (lookup (final_fs (mrun cfg Ks fs stores)) p).
   Proof.
-    intros Hp. unfold run. destruct (all_files cfg); [apply opt_rel_refl|].
-    pose proof (acodemods_rel cfg (prefilter_of S cfg Ks fs) (map st_path stores) Ks (init_state fs stores) _
+    intros HPs Hp. unfold run. destruct (all_files cfg); [apply opt_rel_refl|].
+    pose proof (acodemods_rel cfg (prefilter_of S cfg Ks fs) (map st_path stores) Ks (init_state fs stores) _ HPs
                   (fun q H => H) eq_refl) as H.
     apply H. exact Hp.
   Qed.
@@ -175,19 +189,18 @@ Section Quiet.
         end
     end.
 
-  Hypothesis Hguard : nochange_guarded tb = true.
-
   Lemma quiet_step cfg K res p c :
+    has_guard IfNoChanges (guards_of tb (cpipe K)) = true ->
     (forall b, c = Some b -> findings_for res p <> Some [] -> quiet K (findings_for res p) b) ->
     snd (file_step tb tree parse code T diff cfg K res p c) = None /\
     (fst (file_step tb tree parse code T diff cfg K res p c) = FCrash \/
      exists cx, fst (file_step tb tree parse code T diff cfg K res p c) = FCtx cx /\ fc_cs cx = [] /\ fc_deps cx = []).
   Proof.
-    intros Hq. unfold file_step. destruct (findings_for res p) as [[|f l]|] eqn:Ef.
+    intros HgK Hq. unfold file_step. destruct (findings_for res p) as [[|f l]|] eqn:Ef.
     - split; [reflexivity|right; eexists; split; [reflexivity|split; reflexivity]].
     - assert (Hq' : forall b, c = Some b -> quiet K (Some (f :: l)) b) by (intros b Hb; apply Hq; [exact Hb|discriminate]).
       clear Hq. cbn [fst snd]. unfold pipeline_apply; cbv zeta.
-      rewrite (nochange_guarded_k tb (cpipe K) Hguard).
+      rewrite HgK.
       destruct c as [b|]; [|destruct (has_guard TryParse _); simpl; split; auto; right; eexists; split; [reflexivity|split; reflexivity]].
       specialize (Hq' b eq_refl). unfold quiet in Hq'.
       destruct (parse (cpipe K) b) as [t|]; [|destruct (has_guard TryParse _); simpl; split; auto; right; eexists; split; [reflexivity|split; reflexivity]].
@@ -200,7 +213,7 @@ Section Quiet.
             right; eexists; (split; [reflexivity|split; reflexivity]).
     - assert (Hq' : forall b, c = Some b -> quiet K None b) by (intros b Hb; apply Hq; [exact Hb|discriminate]).
       clear Hq. cbn [fst snd]. unfold pipeline_apply; cbv zeta.
-      rewrite (nochange_guarded_k tb (cpipe K) Hguard).
+      rewrite HgK.
       destruct c as [b|]; [|destruct (has_guard TryParse _); simpl; split; auto; right; eexists; split; [reflexivity|split; reflexivity]].
       specialize (Hq' b eq_refl). unfold quiet in Hq'.
       destruct (parse (cpipe K) b) as [t|]; [|destruct (has_guard TryParse _); simpl; split; auto; right; eexists; split; [reflexivity|split; reflexivity]].
@@ -230,19 +243,21 @@ Section Quiet.
       [now left|right]. unfold findings_at. now rewrite Hb.
   Qed.
 
-  Lemma quiet_files cfg K res : forall files fs s,
-    (forall p b, lookup fs p = Some b -> findings_for res p <> Some [] -> quiet K (findings_for res p) b) ->
+  Lemma quiet_files cfg K res : has_guard IfNoChanges (guards_of tb (cpipe K)) = true -> forall files fs s,
+    (forall p b, In p files -> lookup fs p = Some b -> findings_for res p <> Some [] -> quiet K (findings_for res p) b) ->
     snd (map_files tb tree parse code T diff cfg K res fs files) = fs /\
     forall s', process_results (cid K) (fst (map_files tb tree parse code T diff cfg K res fs files)) s = Ok s' ->
                (forall k, dgetl k (s_cs s') = dgetl k (s_cs s)) /\ (forall k, dgetl k (s_deps s') = dgetl k (s_deps s)).
   Proof.
-    induction files as [|p rest IH]; intros fs s Hq.
+    intros HgK. induction files as [|p rest IH]; intros fs s Hq.
     - simpl. split; [reflexivity|]. intros s' [= <-]. auto.
     - rewrite mfiles_cons. cbn [fst snd]. rewrite pfile_snd, pfile_fst.
-      destruct (quiet_step cfg K res p (lookup fs p)) as [Hw Hc]; [intros b Hb; now apply Hq|].
-      rewrite Hw. destruct (IH fs s Hq) as [Hfs _]. split; [exact Hfs|].
+      assert (Hq' : forall p0 b, In p0 rest -> lookup fs p0 = Some b -> findings_for res p0 <> Some [] -> quiet K (findings_for res p0) b)
+        by (intros p0 b Hin; apply Hq; now right).
+      destruct (quiet_step cfg K res p (lookup fs p) HgK) as [Hw Hc]; [intros b Hb; apply Hq; [now left|exact Hb]|].
+      rewrite Hw. destruct (IH fs s Hq') as [Hfs _]. split; [exact Hfs|].
       intros s' Hs'. destruct Hc as [Hc|[cx [Hc [H1 H2]]]]; rewrite Hc in Hs'; cbn [process_results] in Hs'; [discriminate|].
-      destruct (IH fs (merge_ctx (cid K) cx s) Hq) as [_ Hagg]. destruct (Hagg s' Hs') as [A B].
+      destruct (IH fs (merge_ctx (cid K) cx s) Hq') as [_ Hagg]. destruct (Hagg s' Hs') as [A B].
       split; intros k.
       + rewrite A. simpl. rewrite dgetl_dext, H1, app_nil_r. now destruct (str_eqb k (cid K)).
       + rewrite B. simpl. destruct (str_eqb_spec k (cid K)) as [->|Hne].
@@ -250,24 +265,26 @@ Section Quiet.
         * now rewrite dgetl_dunion_other.
   Qed.
 
-  Lemma quiet_run cfg K fs stores :
-    (forall p b, lookup fs p = Some b -> quiet K (local_findings K p b) b) ->
+  Lemma quiet_run_sel cfg K fs stores :
+    has_guard IfNoChanges (guards_of tb (cpipe K)) = true ->
+    (forall p b, In p (files_to_analyze fsel cfg K (detect S R cfg K (prefilter_of S cfg [K] fs) fs)) ->
+                 lookup fs p = Some b -> local_findings K p b <> Some [] -> quiet K (local_findings K p b) b) ->
     final_fs (run tb tree parse code T S R diff W fsel cfg [K] fs stores) = fs /\
     forall s, run tb tree parse code T S R diff W fsel cfg [K] fs stores = Ok s ->
       s_fs s = fs /\ s_stores s = stores /\
       (forall k, dgetl k (s_cs s) = []) /\ (forall k, dgetl k (s_deps s) = []).
   Proof.
-    intros Hq. unfold run. destruct (all_files cfg) as [|f0 fl]; [split; [reflexivity|intros s [= <-]; repeat split; reflexivity]|].
+    intros HgK Hq. unfold run. destruct (all_files cfg) as [|f0 fl]; [split; [reflexivity|intros s [= <-]; repeat split; reflexivity]|].
     set (pre := prefilter_of S cfg [K] fs). set (s0 := init_state fs stores). cbn [apply_codemods].
     assert (HA : (apply_codemod tb tree parse code T S R diff fsel cfg pre K s0 = Ok s0) \/
                  (exists s1, apply_codemod tb tree parse code T S R diff fsel cfg pre K s0 = Aborted s1 /\ s_fs s1 = fs) \/
                  (exists s1, apply_codemod tb tree parse code T S R diff fsel cfg pre K s0 = Ok s1 /\ s_fs s1 = fs /\
                              s_stores s1 = stores /\ (forall k, dgetl k (s_cs s1) = []) /\ (forall k, dgetl k (s_deps s1) = []))).
-    { destruct (acodemod_cases tb tree parse code T S R diff fsel cfg pre K s0) as [E|[res [files [_ [Hres [_ E]]]]]]; [now left|].
+    { destruct (acodemod_cases tb tree parse code T S R diff fsel cfg pre K s0) as [E|[res [files [_ [Hres [Hfiles E]]]]]]; [now left|].
       right. rewrite E.
-      destruct (quiet_files cfg K res files fs (with_fs s0 (snd (map_files tb tree parse code T diff cfg K res fs files)))) as [Hfs Hagg].
-      { intros p b Hb Hne. subst res. destruct (findings_local cfg K pre fs p b Hb) as [H|H]; [contradiction|].
-        change (s_fs s0) with fs. rewrite H. now apply Hq. }
+      destruct (quiet_files cfg K res HgK files fs (with_fs s0 (snd (map_files tb tree parse code T diff cfg K res fs files)))) as [Hfs Hagg].
+      { intros p b Hin Hb Hne. subst res files. destruct (findings_local cfg K pre fs p b Hb) as [H|H]; [contradiction|].
+        change (s_fs s0) with fs in *. rewrite H in *. now apply Hq. }
       change (s_fs s0) with fs.
       destruct (process_results (cid K) _ _) as [s1|s1] eqn:Ep.
       - right. exists s1. split; [reflexivity|]. pose proof (presults_fs _ _ _ _ (or_introl Ep)) as [F [St _]].
@@ -282,7 +299,245 @@ Section Quiet.
       { unfold process_dependencies. now rewrite B. }
       rewrite Hp. split; [exact F|]. intros s [= <-]. repeat split; auto.
   Qed.
+
+  Lemma quiet_run cfg K fs stores :
+    has_guard IfNoChanges (guards_of tb (cpipe K)) = true ->
+    (forall p b, lookup fs p = Some b -> quiet K (local_findings K p b) b) ->
+    final_fs (run tb tree parse code T S R diff W fsel cfg [K] fs stores) = fs /\
+    forall s, run tb tree parse code T S R diff W fsel cfg [K] fs stores = Ok s ->
+      s_fs s = fs /\ s_stores s = stores /\
+      (forall k, dgetl k (s_cs s) = []) /\ (forall k, dgetl k (s_deps s) = []).
+  Proof. intros HgK Hq. apply quiet_run_sel; [exact HgK|]. intros p b _ Hb _. now apply Hq. Qed.
 End Quiet.
+
+(** ---- C07 with a FIRST run: the output of a run of [K] is quiet for [K], hence the second run is a no-op ---- *)
+Section TwoRuns.
+  Variable tb : run_tables.
+  Variable tree : Type.
+  Variable parse : pipe_kind -> bytes -> option tree.
+  Variable code : pipe_kind -> tree -> bytes.
+  Variable T : codemod -> tree -> option (list finding) -> outcome tree.
+  Variable S : codemod -> path -> bytes -> list finding.
+  Variable R : codemod -> list (path * list finding).
+  Variable diff : bytes -> bytes -> str.
+  Variable W : skind -> option bytes -> list dep -> option (bytes * str * list change).
+  Variable fsel : codemod -> path -> bool.
+  Variable cfg : config.
+  Variable K : codemod.
+
+  Local Notation papply := (pipeline_apply tb tree parse code T diff cfg K).
+  Local Notation fstep := (file_step tb tree parse code T diff cfg K).
+  Local Notation mfiles := (map_files tb tree parse code T diff cfg K).
+  Local Notation mrun := (run tb tree parse code T S R diff W fsel cfg).
+  Local Notation qt := (quiet tb tree parse code T diff K).
+  Local Notation lf := (local_findings S R K).
+  Local Notation gs := (guards_of tb (cpipe K)).
+
+  Hypothesis HgK : has_guard IfNoChanges gs = true.
+  Hypothesis Hwet : dry_run cfg = false.
+  Hypothesis Hnd1 : NoDup (ff_paths cfg).
+  Hypothesis Hnd2 : NoDup (all_files cfg).
+  (** semgrep-detected codemods are find-and-fix codemods (remediation codemods read tool result files) *)
+  Hypothesis Hshape : cdet K = DSemgrep -> cbase K = FindAndFix.
+  (** CONTRACTS of the oracles for [K] *)
+  (** round trip: what the pipeline writes parses back to the tree it was printed from *)
+  Hypothesis Hrt : forall t, parse (cpipe K) (code (cpipe K) t) = Some t.
+  (** no dependency is requested without a reported rewrite *)
+  Hypothesis Hnodep : forall b t fi t' chs ds, T K t fi = Changed t' chs ds ->
+    (chs = [] \/ (has_guard IfNoDiff gs = true /\ diff (diff_base tb tree code (cpipe K) b t) (code (cpipe K) t') = [])) -> ds = [].
+  (** local idempotence of (detector, transformer) on ONE file: applied to its own output, with the findings its detector
+      has for that output, the transformer reports nothing new *)
+  Hypothesis Hidem : forall p t fi t' chs ds, T K t fi = Changed t' chs ds -> chs <> [] ->
+    match T K t' (lf p (code (cpipe K) t')) with
+    | Raise | NoChange => True
+    | Changed t'' chs' ds' =>
+        ds' = [] /\ (chs' = [] \/ (has_guard IfNoDiff gs = true /\
+                                    diff (diff_base tb tree code (cpipe K) (code (cpipe K) t') t') (code (cpipe K) t'') = []))
+    end.
+
+  Lemma nowrite_quiet p b fi : snd (papply p (Some b) fi) = None -> qt fi b.
+  Proof.
+    unfold pipeline_apply, quiet; cbv zeta. rewrite HgK, Hwet.
+    destruct (parse (cpipe K) b) as [t|]; [|trivial].
+    destruct (T K t fi) as [| |t' chs ds] eqn:ET; trivial. cbv beta iota.
+    destruct chs as [|c chs'].
+    - simpl. intros _. split; [exact (Hnodep b t fi t' [] ds ET (or_introl eq_refl))|now left].
+    - cbn [is_nil andb].
+      destruct (has_guard IfNoDiff gs) eqn:G; cbn [andb].
+      + destruct (diff (diff_base tb tree code (cpipe K) b t) (code (cpipe K) t')) as [|x d] eqn:Ed; cbn [is_nil].
+        * intros _. split; [exact (Hnodep b t fi t' (c :: chs') ds ET (or_intror (conj eq_refl Ed)))|right; split; reflexivity].
+        * rewrite andb_false_r. discriminate.
+      + rewrite andb_false_r. discriminate.
+  Qed.
+
+  Lemma write_quiet p c fi b' : snd (papply p c fi) = Some b' -> qt (lf p b') b'.
+  Proof.
+    intros Hw. pose proof Hw as Hw0. apply papply_write in Hw. destruct Hw as [_ [b [t [-> [Hp [[_ [_ Hg]]|[t' [chs [ds [ET ->]]]]]]]]]].
+    - rewrite HgK in Hg. discriminate.
+    - assert (Hne : chs <> []).
+      { intros ->. revert Hw0. unfold pipeline_apply; cbv zeta. rewrite Hp, ET, HgK. simpl. discriminate. }
+      unfold quiet. rewrite Hrt. exact (Hidem p t fi t' chs ds ET Hne).
+  Qed.
+
+  (** what the detector hands over for a selected file of a single-codemod run is exactly the local findings *)
+  Lemma scan_exact fs scope p : In p scope -> res_get (semgrep_scan S K fs scope) p = findings_at S K fs p.
+  Proof.
+    unfold semgrep_scan. induction scope as [|q r IH]; intros Hin; [destruct Hin|]. cbn [flat_map].
+    destruct (findings_at S K fs q) as [|f l] eqn:E.
+    - cbn [app]. destruct (str_eqb_spec p q) as [->|Hne].
+      + rewrite E. destruct (res_get_scan S K fs r q) as [H|H]; fold (semgrep_scan S K fs r); rewrite H; [reflexivity|exact E].
+      + apply IH. destruct Hin as [->|Hin]; [contradiction|exact Hin].
+    - cbn [app]. unfold res_get. cbn [dget]. destruct (str_eqb_spec p q) as [->|Hne]; [now rewrite E|].
+      apply IH. destruct Hin as [->|Hin]; [contradiction|exact Hin].
+  Qed.
+
+  Lemma scan_hit fs scope p : In p scope -> findings_at S K fs p <> [] -> In p (map fst (semgrep_scan S K fs scope)).
+  Proof.
+    unfold semgrep_scan. induction scope as [|q r IH]; intros Hin Hne; [destruct Hin|]. cbn [flat_map]. rewrite map_app, in_app_iff.
+    destruct Hin as [->|Hin]; [left|right; now apply IH].
+    destruct (findings_at S K fs p); [contradiction|now left].
+  Qed.
+
+  Lemma findings_exact fs p b :
+    In p (files_to_analyze fsel cfg K (detect S R cfg K (prefilter_of S cfg [K] fs) fs)) -> lookup fs p = Some b ->
+    findings_for (detect S R cfg K (prefilter_of S cfg [K] fs) fs) p = lf p b.
+  Proof.
+    intros Hin Hb. unfold local_findings. unfold detect in *. destruct (cdet K) eqn:Ed; [reflexivity| |reflexivity].
+    cbn [findings_for]. f_equal.
+    assert (Hff : In p (ff_paths cfg)).
+    { unfold files_to_analyze in Hin. rewrite (Hshape eq_refl) in Hin. apply filter_In in Hin. tauto. }
+    assert (Hfa : findings_at S K fs p = S K p b) by (unfold findings_at; now rewrite Hb).
+    rewrite <- Hfa.
+    unfold prefilter_of. cbn [fold_left]. rewrite Ed.
+    set (scope0 := match ff_paths cfg with [] => scan_all cfg | l => l end).
+    assert (Hs0 : In p scope0) by (unfold scope0; destruct (ff_paths cfg); [destruct Hff|exact Hff]).
+    destruct (map fst (semgrep_scan S K fs scope0)) as [|x l] eqn:Eh.
+    - (* no hit anywhere in the prefilter's scope: in particular none in p *)
+      assert (H0 : findings_at S K fs p = []).
+      { destruct (findings_at S K fs p) as [|f fl] eqn:E; [reflexivity|]. exfalso.
+        assert (Hi : In p (map fst (semgrep_scan S K fs scope0))) by (apply scan_hit; [exact Hs0|rewrite E; discriminate]).
+        rewrite Eh in Hi. destruct Hi. }
+      rewrite H0. unfold dgetl. cbn [dget].
+      match goal with |- res_get (semgrep_scan S K fs ?sc) p = [] => destruct (res_get_scan S K fs sc p) as [H|H]; rewrite H; [reflexivity|exact H0] end.
+    - unfold dgetl. rewrite (dget_dset_same str_eqb str_eqb_spec).
+      destruct (findings_at S K fs p) as [|f fl] eqn:E.
+      + destruct (res_get_scan S K fs (x :: l) p) as [H|H]; rewrite H; [reflexivity|exact E].
+      + rewrite <- E. apply scan_exact. rewrite <- Eh. apply scan_hit; [exact Hs0|rewrite E; discriminate].
+  Qed.
+
+  (** the selection of files does not depend on the tree's contents *)
+  Lemma files_same preA fsA preB fsB :
+    files_to_analyze fsel cfg K (detect S R cfg K preA fsA) = files_to_analyze fsel cfg K (detect S R cfg K preB fsB).
+  Proof.
+    unfold files_to_analyze, detect. destruct (cbase K) eqn:Eb; [reflexivity|].
+    destruct (cdet K) eqn:Ed; [reflexivity| |reflexivity]. discriminate (Hshape eq_refl).
+  Qed.
+
+  Lemma files_nodup' res : NoDup (files_to_analyze fsel cfg K res).
+  Proof.
+    unfold files_to_analyze. destruct (cbase K); [now apply NoDup_filter|]. destruct res; [now apply NoDup_filter|constructor].
+  Qed.
+
+  Lemma files_fsel res p : In p (files_to_analyze fsel cfg K res) -> fsel K p = true.
+  Proof.
+    unfold files_to_analyze. destruct (cbase K); [intros H; apply filter_In in H; tauto|].
+    destruct res; [|intros []]. intros H. apply filter_In in H. destruct H as [_ H]. apply andb_true_iff in H. tauto.
+  Qed.
+
+  Lemma pdeps_frame_fs id s q : ~ In q (map st_path (s_stores s)) ->
+    lookup (s_fs (process_dependencies tb W cfg id s)) q = lookup (s_fs s) q.
+  Proof.
+    intros Hn. unfold process_dependencies. destruct (dgetl id (s_deps s)) as [|d0 ds0]; [reflexivity|].
+    destruct (s_stores s) eqn:Es; [reflexivity|]. rewrite <- Es in *.
+    destruct (snd (try_stores tb W cfg (d0 :: ds0) (s_fs s) (s_stores s))); simpl; now apply (tstores_frame tb W).
+  Qed.
+
+  (** content of a selected file after the first run *)
+  Definition early (fs : fsys) : bool :=
+    is_nil (all_files cfg) || negb (cavail K) ||
+    match eff_detect S R cfg (prefilter_of S cfg [K] fs) K fs with
+    | None => true
+    | Some res => is_nil (files_to_analyze fsel cfg K res)
+    end.
+
+  Lemma eff_detect_some pre fs res : eff_detect S R cfg pre K fs = Some res -> res = detect S R cfg K pre fs.
+  Proof.
+    unfold eff_detect. destruct (_ && _ && _); [discriminate|].
+    destruct (detect S R cfg K pre fs) as [[|x r]|]; [discriminate| |]; now intros [= <-].
+  Qed.
+
+  Lemma run_early fs stores : early fs = true -> mrun [K] fs stores = Ok (init_state fs stores).
+  Proof.
+    unfold early, run. destruct (all_files cfg) as [|f0 fl]; [reflexivity|]. cbn [is_nil orb apply_codemods].
+    rewrite (acodemod_eff tb tree parse code T S R diff fsel cfg). destruct (negb (cavail K)); cbn [orb]; [reflexivity|].
+    cbn [s_fs init_state].
+    destruct (eff_detect S R cfg (prefilter_of S cfg [K] fs) K fs) as [res|]; [|reflexivity].
+    destruct (files_to_analyze fsel cfg K res); [reflexivity|discriminate].
+  Qed.
+
+  Lemma run_main fs stores p : early fs = false ->
+    let res := detect S R cfg K (prefilter_of S cfg [K] fs) fs in
+    In p (files_to_analyze fsel cfg K res) -> ~ In p (map st_path stores) ->
+    lookup (final_fs (mrun [K] fs stores)) p =
+    match snd (fstep res p (lookup fs p)) with Some b' => Some b' | None => lookup fs p end.
+  Proof.
+    pose proof files_nodup' as Hfn.
+    unfold early, run. destruct (all_files cfg) as [|f0 fl]; [discriminate|]. cbn [is_nil orb apply_codemods].
+    rewrite (acodemod_eff tb tree parse code T S R diff fsel cfg). destruct (negb (cavail K)); cbn [orb]; [discriminate|].
+    cbn [s_fs init_state].
+    destruct (eff_detect S R cfg (prefilter_of S cfg [K] fs) K fs) as [res|] eqn:Ee; [|discriminate].
+    apply eff_detect_some in Ee. subst res.
+    set (res := detect S R cfg K (prefilter_of S cfg [K] fs) fs).
+    destruct (files_to_analyze fsel cfg K res) as [|f fl'] eqn:Ef; [discriminate|]. intros _ Hin Hst. cbv zeta.
+    rewrite <- Ef in *. set (files := files_to_analyze fsel cfg K res) in *.
+    set (s0 := init_state fs stores).
+    assert (Hl : lookup (snd (mfiles res fs files)) p =
+                 match snd (fstep res p (lookup fs p)) with Some b' => Some b' | None => lookup fs p end).
+    { apply mfiles_lookup; [apply Hfn|exact Hin]. }
+    destruct (process_results (cid K) (fst (mfiles res fs files)) (with_fs s0 (snd (mfiles res fs files)))) as [s1|s1] eqn:Ep.
+    - pose proof (presults_fs _ _ _ _ (or_introl Ep)) as [F [St _]]. cbn [apply_codemods final_fs].
+      rewrite pdeps_frame_fs by (rewrite St; exact Hst). rewrite F. exact Hl.
+    - pose proof (presults_fs _ _ _ _ (or_intror Ep)) as [F _]. cbn [final_fs]. rewrite F. exact Hl.
+  Qed.
+
+  Lemma early_fs fs stores : early fs = true -> final_fs (mrun [K] fs stores) = fs.
+  Proof. intros H. now rewrite run_early. Qed.
+
+  (** THE C07 LIFT: run [K], then run [K] again on the result (any stores: a fresh invocation re-parses the manifests) *)
+  Theorem two_runs_noop fs stores stores2 :
+    (forall st, In st stores -> fsel K (st_path st) = false) ->       (* no manifest is a source file selected by K *)
+    let fs1 := final_fs (mrun [K] fs stores) in
+    final_fs (mrun [K] fs1 stores2) = fs1 /\
+    forall s, mrun [K] fs1 stores2 = Ok s ->
+      s_fs s = fs1 /\ s_stores s = stores2 /\ (forall k, dgetl k (s_cs s) = []) /\ (forall k, dgetl k (s_deps s) = []).
+  Proof.
+    intros Hman fs1.
+    destruct (early fs) eqn:Ee.
+    - (* nothing was applied by the first run: the second one sees the same tree and does the same *)
+      assert (E1 : fs1 = fs) by (unfold fs1; now apply early_fs). rewrite E1.
+      rewrite (run_early fs stores2 Ee). split; [reflexivity|]. intros s [= <-]. repeat split; reflexivity.
+    - apply (quiet_run_sel tb tree parse code T S R diff W fsel cfg K fs1 stores2 HgK).
+      intros p b1 Hin2 Hb1 Hne.
+      set (res1 := detect S R cfg K (prefilter_of S cfg [K] fs) fs).
+      assert (Hin1 : In p (files_to_analyze fsel cfg K res1)) by (unfold res1; now rewrite (files_same (prefilter_of S cfg [K] fs) fs (prefilter_of S cfg [K] fs1) fs1)).
+      assert (Hst : ~ In p (map st_path stores)).
+      { intros Hi. apply in_map_iff in Hi. destruct Hi as [st [<- Hi]]. apply files_fsel in Hin1. rewrite (Hman st Hi) in Hin1. discriminate. }
+      pose proof (run_main fs stores p Ee Hin1 Hst) as Hl. fold fs1 in Hl. fold res1 in Hl. rewrite Hb1 in Hl.
+      unfold file_step in Hl.
+      destruct (findings_for res1 p) as [[|f l]|] eqn:Ef.
+      + (* short-circuited in the first run: same content, and the exact findings say there is nothing to do *)
+        cbn [snd] in Hl. symmetry in Hl. pose proof (findings_exact fs p b1 Hin1 Hl) as Hx. fold res1 in Hx. rewrite Ef in Hx.
+        rewrite <- Hx in Hne. contradiction.
+      + cbn [snd] in Hl. destruct (snd (papply p (lookup fs p) (Some (f :: l)))) as [b'|] eqn:Ew.
+        * inversion Hl; subst b'. eapply write_quiet; exact Ew.
+        * symmetry in Hl. pose proof (findings_exact fs p b1 Hin1 Hl) as Hx. fold res1 in Hx. rewrite Ef in Hx.
+          rewrite <- Hx. apply (nowrite_quiet p). rewrite <- Hl. exact Ew.
+      + cbn [snd] in Hl. destruct (snd (papply p (lookup fs p) None)) as [b'|] eqn:Ew.
+        * inversion Hl; subst b'. eapply write_quiet; exact Ew.
+        * symmetry in Hl. pose proof (findings_exact fs p b1 Hin1 Hl) as Hx. fold res1 in Hx. rewrite Ef in Hx.
+          rewrite <- Hx. apply (nowrite_quiet p). rewrite <- Hl. exact Ew.
+  Qed.
+End TwoRuns.
 
 (** ================= closed statements, indexed by the tables ================= *)
 Definition C03_unchanged_statement : Prop :=
@@ -294,77 +549,142 @@ Definition C03_unchanged_statement : Prop :=
 Theorem C03_unchanged : C03_unchanged_statement.
 Proof. exact unchanged_no_changeset. Qed.
 
-(** C01: if every transformer maps text that parses to text that parses, then after ANY run every non-manifest file
-    that parsed before parses after (and exists iff it existed). *)
+(** C01: for the codemods OF THE RUN (all on the libcst pipeline) and an invariant [Good] on file text that their
+    transformers preserve (True, or the complement of the finding classes): if each maps Good text that parses to Good text
+    that parses, then after the run every non-manifest file that was Good and parsed before is Good and parses after (and
+    exists iff it existed), whether the run completes or aborts.  _partial w.r.t. the property: the premise is a contract of
+    the transformers (discharged for a modelled kernel in Properties/C01.v, tested for the others). *)
 Definition C01_lift_statement (tb : run_tables) : Prop :=
-  if nochange_guarded tb then
-    forall (tree : Type) parse code T S R diff W fsel,
-      (forall K b t fi t' chs ds, parse (cpipe K) b = Some t -> T K t fi = Changed t' chs ds ->
-         parse PLibcst b <> None -> parse PLibcst (code (cpipe K) t') <> None) ->
-      forall (cfg : config) (Ks : list codemod) (fs : fsys) (stores : list store) (p : path) (b : bytes),
-        ~ In p (map st_path stores) -> lookup fs p = Some b -> parse PLibcst b <> None ->
+  if libcst_nochange_guarded tb then
+    forall (tree : Type) parse code T S R diff W fsel (Good : bytes -> Prop) (Ks : list codemod),
+      (forall K, In K Ks -> cpipe K = PLibcst) ->
+      (forall K b t fi t' chs ds, In K Ks -> Good b -> parse PLibcst b = Some t -> T K t fi = Changed t' chs ds ->
+         parse PLibcst (code PLibcst t') <> None /\ Good (code PLibcst t')) ->
+      forall (cfg : config) (fs : fsys) (stores : list store) (p : path) (b : bytes),
+        ~ In p (map st_path stores) -> lookup fs p = Some b -> Good b -> parse PLibcst b <> None ->
         exists b', lookup (final_fs (run tb tree parse code T S R diff W fsel cfg Ks fs stores)) p = Some b' /\
-                   parse PLibcst b' <> None
+                   parse PLibcst b' <> None /\ Good b'
   else True.
 Lemma C01_lift_all tb : C01_lift_statement tb.
 Proof.
-  unfold C01_lift_statement. destruct (nochange_guarded tb) eqn:G; [|exact I].
-  intros tree parse code T S R diff W fsel HT cfg Ks fs stores p b Hp Hb Hpar.
+  unfold C01_lift_statement, libcst_nochange_guarded. destruct (has_guard IfNoChanges (t_libcst tb)) eqn:G; [|exact I].
+  intros tree parse code T S R diff W fsel Good Ks Hk HT cfg fs stores p b Hp Hb Hg Hpar.
   pose proof (lift_rel tb tree parse code T S R diff W fsel
-                (fun b' b => parse PLibcst b <> None -> parse PLibcst b' <> None)
-                (fun _ H => H) (fun a b c H1 H2 H => H1 (H2 H)) G HT cfg Ks fs stores p Hp) as H.
-  rewrite Hb in H. destruct (lookup (final_fs _) p) as [b'|]; simpl in H; [|contradiction]. eauto.
+                (fun b' b => Good b /\ parse PLibcst b <> None -> Good b' /\ parse PLibcst b' <> None)
+                (fun _ H => H) (fun a b c H1 H2 H => H1 (H2 H)) (fun K => In K Ks)) as HL.
+  assert (H : opt_rel (fun b' b => Good b /\ parse PLibcst b <> None -> Good b' /\ parse PLibcst b' <> None)
+                (lookup fs p) (lookup (final_fs (run tb tree parse code T S R diff W fsel cfg Ks fs stores)) p)).
+  { apply HL; auto.
+    - intros K HK. rewrite (Hk K HK). exact G.
+    - intros K b0 t fi t' chs ds HK Hp0 HT0 [Hg0 _]. rewrite (Hk K HK) in *.
+      destruct (HT K b0 t fi t' chs ds HK Hg0 Hp0 HT0) as [A B]. split; assumption. }
+  rewrite Hb in H. destruct (lookup (final_fs _) p) as [b'|]; simpl in H; [|contradiction].
+  destruct (H (conj Hg Hpar)) as [A B]. eauto.
 Qed.
 Theorem C01_lift : C01_lift_statement run_tables_v.
 Proof. exact (C01_lift_all run_tables_v). Qed.
 
 (** C02: a preorder [le] on an abstract measure [u] of file text (e.g. the set of unresolved names under inclusion)
-    is preserved along any run if each transformer preserves it. *)
+    is preserved along any run if each transformer OF THE RUN preserves it on [Good] text (and preserves [Good]). *)
 Definition C02_lift_statement (tb : run_tables) : Prop :=
-  if nochange_guarded tb then
-    forall (tree : Type) parse code T S R diff W fsel (X : Type) (u : bytes -> X) (le : X -> X -> Prop),
+  if libcst_nochange_guarded tb then
+    forall (tree : Type) parse code T S R diff W fsel (X : Type) (u : bytes -> X) (le : X -> X -> Prop)
+           (Good : bytes -> Prop) (Ks : list codemod),
       (forall x, le x x) -> (forall x y z, le x y -> le y z -> le x z) ->
-      (forall K b t fi t' chs ds, parse (cpipe K) b = Some t -> T K t fi = Changed t' chs ds ->
-         le (u (code (cpipe K) t')) (u b)) ->
-      forall (cfg : config) (Ks : list codemod) (fs : fsys) (stores : list store) (p : path) (b : bytes),
-        ~ In p (map st_path stores) -> lookup fs p = Some b ->
+      (forall K, In K Ks -> cpipe K = PLibcst) ->
+      (forall K b t fi t' chs ds, In K Ks -> Good b -> parse PLibcst b = Some t -> T K t fi = Changed t' chs ds ->
+         le (u (code PLibcst t')) (u b) /\ Good (code PLibcst t')) ->
+      forall (cfg : config) (fs : fsys) (stores : list store) (p : path) (b : bytes),
+        ~ In p (map st_path stores) -> lookup fs p = Some b -> Good b ->
         exists b', lookup (final_fs (run tb tree parse code T S R diff W fsel cfg Ks fs stores)) p = Some b' /\
-                   le (u b') (u b)
+                   le (u b') (u b) /\ Good b'
   else True.
 Lemma C02_lift_all tb : C02_lift_statement tb.
 Proof.
-  unfold C02_lift_statement. destruct (nochange_guarded tb) eqn:G; [|exact I].
-  intros tree parse code T S R diff W fsel X u le Hr Ht HT cfg Ks fs stores p b Hp Hb.
-  pose proof (lift_rel tb tree parse code T S R diff W fsel (fun b' b => le (u b') (u b))
-                (fun b => Hr (u b)) (fun a b c H1 H2 => Ht _ _ _ H1 H2) G HT cfg Ks fs stores p Hp) as H.
-  rewrite Hb in H. destruct (lookup (final_fs _) p) as [b'|]; simpl in H; [|contradiction]. eauto.
+  unfold C02_lift_statement, libcst_nochange_guarded. destruct (has_guard IfNoChanges (t_libcst tb)) eqn:G; [|exact I].
+  intros tree parse code T S R diff W fsel X u le Good Ks Hr Ht Hk HT cfg fs stores p b Hp Hb Hg.
+  pose proof (lift_rel tb tree parse code T S R diff W fsel
+                (fun b' b => Good b -> le (u b') (u b) /\ Good b')
+                (fun b H => conj (Hr (u b)) H)
+                (fun a b c H1 H2 H => let (L2, G2) := H2 H in let (L1, G1) := H1 G2 in conj (Ht _ _ _ L1 L2) G1)
+                (fun K => In K Ks)) as HL.
+  assert (H : opt_rel (fun b' b => Good b -> le (u b') (u b) /\ Good b')
+                (lookup fs p) (lookup (final_fs (run tb tree parse code T S R diff W fsel cfg Ks fs stores)) p)).
+  { apply HL; auto.
+    - intros K HK. rewrite (Hk K HK). exact G.
+    - intros K b0 t fi t' chs ds HK Hp0 HT0 Hg0. rewrite (Hk K HK) in *. exact (HT K b0 t fi t' chs ds HK Hg0 Hp0 HT0). }
+  rewrite Hb in H. destruct (lookup (final_fs _) p) as [b'|]; simpl in H; [|contradiction].
+  destruct (H Hg) as [A B]. eauto.
 Qed.
 Theorem C02_lift : C02_lift_statement run_tables_v.
 Proof. exact (C02_lift_all run_tables_v). Qed.
 
-(** C07: if, for every file, the content found by a run of [K] is quiet for (detector, transformer) of [K] — which is
-    what local idempotence gives for the output of a first run — then that run writes no file, no manifest, and
-    reports no change set and no dependency. *)
-Definition C07_lift_statement (tb : run_tables) : Prop :=
-  if nochange_guarded tb then
+(** C07 (lemma): on a tree whose selected files are quiet for (detector, transformer) of [K], a run of [K] is a no-op. *)
+Definition C07_quiet_statement (tb : run_tables) : Prop :=
+  if libcst_nochange_guarded tb then
     forall (tree : Type) parse code T S R diff W fsel (cfg : config) (K : codemod) (fs : fsys) (stores : list store),
+      cpipe K = PLibcst ->
       (forall p b, lookup fs p = Some b -> quiet tb tree parse code T diff K (local_findings S R K p b) b) ->
       final_fs (run tb tree parse code T S R diff W fsel cfg [K] fs stores) = fs /\
       forall s, run tb tree parse code T S R diff W fsel cfg [K] fs stores = Ok s ->
         s_fs s = fs /\ s_stores s = stores /\
         (forall k, dgetl k (s_cs s) = []) /\ (forall k, dgetl k (s_deps s) = [])
   else True.
+Lemma C07_quiet_all tb : C07_quiet_statement tb.
+Proof.
+  unfold C07_quiet_statement, libcst_nochange_guarded. destruct (has_guard IfNoChanges (t_libcst tb)) eqn:G; [|exact I].
+  intros tree parse code T S R diff W fsel cfg K fs stores Hk Hq. apply quiet_run; [rewrite Hk; exact G|exact Hq].
+Qed.
+Theorem C07_quiet_run : C07_quiet_statement run_tables_v.
+Proof. exact (C07_quiet_all run_tables_v). Qed.
+
+(** C07: run [K] (a real, non-dry run), then run [K] again on what the first run left (a fresh invocation: any stores):
+    the second run writes no file, no manifest, reports no change set and requests no dependency.
+    Contracts (explicit premises): round trip of the printer/parser; no dependency without a reported rewrite; local
+    idempotence of (detector, transformer) of [K] on ONE file.  Side conditions: distinct paths in the cached file lists,
+    semgrep-detected codemods are find-and-fix, no manifest is a source file selected by [K].
+    _partial w.r.t. the property: the three contracts are oracle contracts (kernel theorems / tested), and a manifest
+    that is also a selected source (setup.py) is excluded. *)
+Definition C07_lift_statement (tb : run_tables) : Prop :=
+  if libcst_nochange_guarded tb then
+    forall (tree : Type) parse code T S R diff W fsel (cfg : config) (K : codemod),
+      cpipe K = PLibcst -> dry_run cfg = false -> NoDup (ff_paths cfg) -> NoDup (all_files cfg) ->
+      (cdet K = DSemgrep -> cbase K = FindAndFix) ->
+      (forall t, parse PLibcst (code PLibcst t) = Some t) ->
+      (forall b t fi t' chs ds, T K t fi = Changed t' chs ds ->
+         (chs = [] \/ (has_guard IfNoDiff (t_libcst tb) = true /\
+                       diff (diff_base tb tree code PLibcst b t) (code PLibcst t') = [])) -> ds = []) ->
+      (forall p t fi t' chs ds, T K t fi = Changed t' chs ds -> chs <> [] ->
+         match T K t' (local_findings S R K p (code PLibcst t')) with
+         | Raise | NoChange => True
+         | Changed t'' chs' ds' =>
+             ds' = [] /\ (chs' = [] \/ (has_guard IfNoDiff (t_libcst tb) = true /\
+                                         diff (diff_base tb tree code PLibcst (code PLibcst t') t') (code PLibcst t'') = []))
+         end) ->
+      forall (fs : fsys) (stores stores2 : list store),
+        (forall st, In st stores -> fsel K (st_path st) = false) ->
+        let fs1 := final_fs (run tb tree parse code T S R diff W fsel cfg [K] fs stores) in
+        final_fs (run tb tree parse code T S R diff W fsel cfg [K] fs1 stores2) = fs1 /\
+        forall s, run tb tree parse code T S R diff W fsel cfg [K] fs1 stores2 = Ok s ->
+          s_fs s = fs1 /\ s_stores s = stores2 /\ (forall k, dgetl k (s_cs s) = []) /\ (forall k, dgetl k (s_deps s) = [])
+  else True.
 Lemma C07_lift_all tb : C07_lift_statement tb.
 Proof.
-  unfold C07_lift_statement. destruct (nochange_guarded tb) eqn:G; [|exact I].
-  intros. now apply quiet_run.
+  unfold C07_lift_statement, libcst_nochange_guarded. destruct (has_guard IfNoChanges (t_libcst tb)) eqn:G; [|exact I].
+  intros tree parse code T S R diff W fsel cfg K Hk Hwet Hn1 Hn2 Hsh Hrt Hnodep Hidem fs stores stores2 Hman.
+  apply (two_runs_noop tb tree parse code T S R diff W fsel cfg K); rewrite ?Hk; auto.
 Qed.
 Theorem C07_lift : C07_lift_statement run_tables_v.
 Proof. exact (C07_lift_all run_tables_v). Qed.
 
+(** The positive branch is the one taken on the current tables (a statement that reduces to True proves nothing). *)
+Example lift_statements_positive : libcst_nochange_guarded run_tables_v = true.
+Proof. reflexivity. Qed.
+
 Print Assumptions C03_unchanged.
 Print Assumptions C01_lift.
 Print Assumptions C02_lift.
+Print Assumptions C07_quiet_run.
 Print Assumptions C07_lift.
 
 (** Non-vacuity: the toy transformers satisfy the local contract of C01 (toy "parses" = does not start with 255);
